@@ -276,6 +276,18 @@ class ExprMixin:
     def ex_Slice(self, n, st, frame, out):
         return V(("unknown", getattr(n, "lineno", 0))), st
 
+    @staticmethod
+    def _neg_len(e):
+        """N for the literal forms `-N` and `-len("...")`, else None"""
+        if isinstance(e, ast.UnaryOp) and isinstance(e.op, ast.USub):
+            o = e.operand
+            if isinstance(o, ast.Constant) and isinstance(o.value, int) and not isinstance(o.value, bool):
+                return o.value
+            if isinstance(o, ast.Call) and isinstance(o.func, ast.Name) and o.func.id == "len" and len(o.args) == 1 \
+                    and isinstance(o.args[0], ast.Constant) and isinstance(o.args[0].value, str):
+                return len(o.args[0].value)
+        return None
+
     def ex_Subscript(self, n, st, frame, out):
         recv, st = self.eval(n.value, st, frame, out)
         if isinstance(n.slice, ast.Slice):
@@ -287,7 +299,17 @@ class ExprMixin:
                 ls = dict(st.lists)
                 ls[lid] = el
                 return V(lid), st.set(lists=ls)
-            return frozenset(("slice", t) for t in recv), st
+            cut = self._neg_len(sl.upper) if sl.lower is None and sl.step is None else None
+
+            def unmark(t):
+                # `marker[:-len("_delete")]`: a deletion marker (sibling named stem + S + suffix) cut by len(S) is the
+                # original path again (the names are digests and listed documents: no suffix)
+                if cut and tag(t) == "sibling" and tag(t[2]) == "cat":
+                    cs = [x for x in t[2][1] if is_const(x) and isinstance(x[1], str)]
+                    if len(cs) == 1 and len(cs[0][1]) == cut and all(tag(x) in ("stem", "suffix") or x is cs[0] for x in t[2][1]):
+                        return t[1]
+                return ("slice", t)
+            return frozenset(unmark(t) for t in recv), st
         key, st = self.eval(n.slice, st, frame, out)
         return self.getitem(recv, key, st, n), st
 
@@ -497,6 +519,11 @@ class ExprMixin:
             elif tg == "dictlit":
                 for k, _ in t[1]:
                     res.add(k)
+            elif tg == "handle":
+                # iterating over an open file reads it (line by line) through the handle
+                if "r" in (t[2] or "") or "+" in (t[2] or ""):
+                    st = self.emit("READ", "file.iter", [V(t[1])], node, st, frame, extra={"handle": t, "mode": t[2]})
+                res.add(("elem", t))
             else:
                 res.add(("elem", t))
         return _cap(res, self.p.loc(frame.func, node)), st
